@@ -21,6 +21,15 @@ def surf_deck(card):
             'cells': [{'n': 1, 'geom': ['S', -1, 0], 'imp': 1}, {'n': 2, 'geom': ['S', 1, 0], 'imp': 1}]}
 
 
+def unordered_deck(card):
+    """The sample surface followed by two more cards whose numbers do not increase down the block (1, 3, 2): numbers
+    the converter invents for the parts of a multi-part surface must not land on a card's number."""
+    return {'surfs': [dict(card, n=1), {'n': 3, 'k': 'pz', 'p': [40]}, {'n': 2, 'k': 'so', 'p': [30]}],
+            'cells': [{'n': 1, 'geom': ['*', ['S', -1, 0], ['S', -2, 0]], 'imp': 1},
+                      {'n': 2, 'geom': ['*', ['S', 1, 0], ['S', -2, 0]], 'imp': 1},
+                      {'n': 3, 'geom': ['S', 2, 0], 'imp': 0}]}
+
+
 def gen_cards(chk, lvl, simulate, seed):
     cfg = 'INIT Init\nNEXT Next\nCONSTANTS Lvl = %d\nCHECK_DEADLOCK FALSE\n' % lvl
     res = tlc.run('GenSurf', cfg, workers=16, simulate=None if simulate is None else max(1, simulate // 16),
@@ -60,8 +69,18 @@ def main():
         nd[i + 1] = d
         meta[i + 1] = r
         jobs.append({'tid': i + 1, 'deck': d, 'opts': []})
-    # covariance: every third card (all in thorough) also under a general rigid motion (general-position code paths)
+    # every fourth card (all in thorough) also in a deck whose surface numbers do not increase down the block
     base = len(jobs)
+    for i, r in enumerate(recs):
+        if thorough or i % 4 == 1:
+            tid = base + i + 1
+            d = adeck.normalise(unordered_deck(r['card']))
+            d['pts'] = pts
+            nd[tid] = d
+            meta[tid] = dict(r, unordered=True)
+            jobs.append({'tid': tid, 'deck': d, 'opts': []})
+    # covariance: every third card (all in thorough) also under a general rigid motion (general-position code paths)
+    base = base + len(recs)
     for i, r in enumerate(recs):
         if thorough or i % 3 == 0:
             tid = base + i + 1
